@@ -57,7 +57,7 @@ def gen_cases(ctx):
             for _ in range(rng.randint(3, 10)):
                 r = rng.random()
                 if r < 0.55:
-                    ops.append(("add", rng.randint(1, 4)))
+                    ops.append(("add", rng.choice([1, 2, 3, 4, 1, 2, 3, 4, 0, -1])))      # -1 stands for None, 0 is falsy
                 elif r < 0.93 or cfg["maxcache"] == 0:
                     ops.append(("update",))
                 else:
